@@ -246,7 +246,11 @@ Definition dc_write (d : dcache) (nbits a v : Z) (direct : bool) : option err * 
   if direct then
     let '(m', e) := mem_write rv_memcfg (lower d) nbits a v in (e, upd_lower d m', 0)
   else if wthrough d then
-    (* write-through: statistics first, block updated only on a hit, lower memory always *)
+    (* write-through: a write that crosses a word boundary is rejected before anything is modified;
+       otherwise statistics first, block updated only on a hit, lower memory always *)
+    if (nbits =? 16) && (da_byoff da >? 2) then (Some (EOffset (da_byoff da) 2), d, 0)
+    else if (nbits =? 32) && negb (da_byoff da =? 0) then (Some (EOffset (da_byoff da) 0), d, 0)
+    else
     match cache_read_block (dc d) da with
     | (ob, c1) =>
         let d1 := upd_dc d c1 in
